@@ -183,7 +183,9 @@ def path_funcs():
 
 
 def _text(x):
-    return x if isinstance(x, str) else x.decode("utf8", "replace")
+    # bytes -> text the way the interpreter does it for file names (undecodable bytes come back as the lone surrogates
+    # they were spelled with), so that a logged system path can be compared code point for code point
+    return x if isinstance(x, str) else os.fsdecode(x)
 
 
 class Logger(object):
@@ -260,12 +262,15 @@ def run_osfs(rnd, paths, temp=False):
         for name in ("os", "io", "shutil"):
             saved[name] = getattr(mod, name)
             setattr(mod, name, Logger(saved[name], log, name))
+        import fs.base as bmod                # (FS.move renames with os.rename on the two system paths itself)
+        saved_base_os = bmod.os
+        bmod.os = Logger(saved_base_os, log, "os")
         if getattr(mod, "scandir", None) is not None:
             saved["scandir"] = mod.scandir
             real_scandir = mod.scandir
 
             def scandir_logged(p):
-                log.append(("scandir", p if isinstance(p, str) else p.decode("utf8", "replace")))
+                log.append(("scandir", _text(p)))
                 return real_scandir(p)
             mod.scandir = scandir_logged
         before = canary_snapshot(base, root)
@@ -300,6 +305,11 @@ def run_osfs(rnd, paths, temp=False):
                     if outside:
                         bad.append(("OSFS call reached a system path outside the root",
                                     dict(method=m, position=which, path=p, verdict=verdict, outside=outside[:4])))
+                    un = unnormal(log, (os.path.normpath(root), real_root))
+                    if un:
+                        bad.append(("a system path that is not lexically normal was handed to the operating system "
+                                    "(the kernel resolves '..' physically, through symbolic links)",
+                                    dict(fs="OSFS", method=m, position=which, path=p, verdict=verdict, system_paths=un[:4])))
             # restore the small tree in case something was removed
             for d in ("d/e",):
                 os.makedirs(os.path.join(root, d), exist_ok=True)
@@ -314,6 +324,10 @@ def run_osfs(rnd, paths, temp=False):
     finally:
         for name, v in saved.items():
             setattr(mod, name, v)
+        try:
+            bmod.os = saved_base_os
+        except NameError:
+            pass
         shutil.rmtree(base, ignore_errors=True)
     return results, bad
 
@@ -438,7 +452,7 @@ def run_mount(rnd, paths):
     from h_route import snap
     for (m, params, positions) in public_methods():
         for which in positions:
-            for p in paths[:40]:
+            for p in paths:
                 del log[:]
                 before1 = snap(members[1])
                 args = build_args(params, positions, which, "m0/" + p, safe="m0/a")
@@ -838,7 +852,7 @@ class OSWorld(World):
                 fh.write(content)
 
     def escaped(self, D):
-        return os_escaped(self.log, os.path.join(self.os_top, *D))
+        return os_escaped(self.log, os.path.join(self.os_top, *D)) + unnormal(self.log)
 
     def url(self):
         return "osfs://" + os.path.join(self.os_top, *self.box)
@@ -943,8 +957,9 @@ class logged_osfs(object):
     def __enter__(self):
         import fs.osfs as mod
         import fs.tempfs as tmod
+        import fs.base as bmod            # (FS.move renames with os.rename on the two system paths itself)
         log = self.log
-        for m, names in ((mod, ("os", "io", "shutil")), (tmod, ("shutil", "tempfile"))):
+        for m, names in ((mod, ("os", "io", "shutil")), (tmod, ("shutil", "tempfile")), (bmod, ("os",))):
             for name in names:
                 if hasattr(m, name):
                     self.saved.append((m, name, getattr(m, name)))
@@ -1592,6 +1607,541 @@ def run_ctor_state(rnd, thorough, seed):
     return results, bad, cov
 
 
+# --------------------------------------------------------------------------- round 4: the path alphabet
+# (a) the oracle on system paths looks at their FORM too: what reaches os / io / shutil / scandir is lexically normal
+#     (no '.', '..' or empty component - the kernel resolves those physically, through whatever a symlink points at),
+#     lies below the root, and names - component for component, code point for code point - the location the extracted
+#     model (Sandbox.v osfs_syspath) gives for one of the path arguments, an ancestor or a descendant of it;
+# (b) the trees hold symbolic links that STAY inside the root (to '.', to a sibling, to a parent within the root, to
+#     files) and every path-taking method is driven with spellings that go through them followed by '..';
+# (c) every path position gets a Unicode dimension: compatibility look-alikes of '.', '..', '/', '\', NUL-like and
+#     control characters, combining sequences and NFC/NFD pairs of one name, surrogates / unencodable names. What a
+#     name denotes is decided by the bytes on disk: the tree holds such names for real (every file's content spells the
+#     bytes of its own name), and decoys outside the root sit exactly where a folded spelling would land.
+OUT = "OUTSIDE"          # token carried by the content of everything planted outside a root (and by the name of one
+DECOY = "canary"         # witness file there); no argument ever spells it: the decoy the arguments name is DECOY
+MTIME_NS = 1200000000 * 10 ** 9          # every planted file carries this modification time (a stable signature)
+
+UP_ALIKES = [u"\u2025", u"\uff0e\uff0e", u"\u2024\u2024", u"\ufe52\ufe52", u".\uff0e", u"\u2024.", u"..\u200b", u"\ufeff..",
+             u".\u00ad.", u"\u202e..", u"..\u0338", u"\u2026", u"%2e%2e", u". .", u"..\x00", u"\x00.."]
+DOT_ALIKES = [u"\uff0e", u"\u2024", u"\ufe52", u"\u3002", u".\u200d"]
+SLASH_ALIKES = [u"\uff0f", u"\u2215", u"\u2044", u"\u29f8", u"\\", u"\uff3c", u"\ufe68", u"\x00/"]
+CONTROLS = [u"\x00", u"\u2400", u"\x01", u"\x7f", u"\n", u"\r", u"\t", u"\x1b", u"\x85", u"\u2028", u"\u200b", u"\ufeff"]
+NORMAL_PAIRS = [(u"\u00e9.txt", u"e\u0301.txt"), (u"\u00c5", u"A\u030a"), (u"\uac00", u"\u1100\u1161")]     # (NFC, NFD)
+COMPAT_NAMES = [u"\uff41", u"\ufb01", u"\u2460", u"\u00aa"]         # fold (NFKC) to 'a', 'fi', '1', 'a'
+SURROGATES = [u"\udc80", u"\udcff", u"\ud800", u"\udfff", u"\udc2f", u"\udc2e\udc2e", u"\U0001f600", u"\U000e0001"]
+# names of the Unicode dimension that exist for real inside the root (the directories hold a file 'm')
+UNI_DIRS = [u"\u2025", u"\uff0e\uff0e", u"\uff0e", u"d/\u2025", u"\ufeff..", u"..\u0338"]
+UNI_FILES = [NORMAL_PAIRS[0][0], NORMAL_PAIRS[0][1], NORMAL_PAIRS[1][0], NORMAL_PAIRS[1][1], u"\uff41", u"\udc80",
+             u"..\uff0fm", u"..\\m", u"\u200b"]
+
+
+def unicode_paths():
+    """[(class, path)] - the Unicode dimension of a path position."""
+    out = []
+    for u in UP_ALIKES:
+        out += [("up-alike", u), ("up-alike/name", u + "/m"), ("up-alike/name", u + "/a"),
+                ("dir/up-alike/up-alike", "d/" + u + "/" + u + "/m"), ("up-alike/decoy", u + "/" + DECOY),
+                ("up-alike/up-alike", u + "/" + u + "/x"), ("/up-alike/", "/" + u + "/")]
+    for u in DOT_ALIKES:
+        out += [("dot-alike", u), ("dot-alike x2", u + u), ("dir/dot-alike/..", "d/" + u + "/../f"),
+                ("dot-alike + '.'", u + "./m"), ("dot-alike/../..", u + "/../../m")]
+    for s in SLASH_ALIKES:
+        out += [("..+slash-alike", ".." + s + "m"), ("name+slash-alike+..", "d" + s + ".." + s + ".." + s + "m"),
+                ("slash-alike first", s + ".." + s + "m"), ("slash-alike only", s), ("name+slash-alike", "a" + s),
+                ("up-alike+slash-alike", UP_ALIKES[0] + s + "m")]
+    for c in CONTROLS:
+        out += [("control", c), ("name+control", "a" + c), ("control+name", c + "a"), ("..+control", ".." + c + "/m"),
+                ("dir/control/..", "d/" + c + "/.."), ("control/../..", c + "/../../m")]
+    for nfc, nfd in NORMAL_PAIRS:
+        out += [("nfc", nfc), ("nfd", nfd), ("dir/../nfc", "d/../" + nfc), ("dir/../nfd", "d/../" + nfd),
+                ("nfd/..", nfd + "/.."), ("new below dir, nfd", "d/" + nfd)]
+    for n in COMPAT_NAMES:
+        out += [("compat-name", n), ("dir/../compat-name", "d/../" + n), ("compat-name/..", n + "/../a")]
+    for s in SURROGATES:
+        out += [("surrogate / non-BMP", s), ("dir/surrogate", "d/" + s), ("surrogate/..", s + "/.."),
+                ("surrogate/../..", s + "/../../m"), ("..+surrogate", ".." + s)]
+    seen, res = set(), []
+    for c, p in out:
+        if p not in seen:
+            seen.add(p)
+            res.append((c, p))
+    return res
+
+
+# (link, target): ONE link that closes a cycle per tree (with two, a breadth-first walk grows exponentially until the
+# kernel's symlink limit; with one it is a chain that ends at that limit)
+CYCLES = (("self", "."), ("d/up", ".."), ("d/e/up2", ".."))
+PLAIN_LINKS = (("ls", "s"), ("d/ls2", "../s"), ("fl", "a"), ("d/fl2", "../a"), ("d/e/ltop", "../../s"))
+LINK_PREFIXES = ("", "/", "s/../", "./")
+
+
+def link_paths(cyc):
+    """[(class, path)] - spellings that go THROUGH a symbolic link and then back with '..' (4 prefix spellings each)."""
+    out = []
+    for link in [cyc] + [l for l, _t in PLAIN_LINKS]:
+        k = len(link.split("/"))
+        tails = [("link", ""), ("link/..", "/.."), ("link/../name", "/../a"), ("link/..//", "/..//"), ("link/./..", "/./.."),
+                 ("link/name", "/h"), ("link/../decoy", "/../" + DECOY), ("link/../..", "/../.."),
+                 ("link/../../decoy", "/../../" + DECOY), ("link/link/..", "/" + cyc + "/.."),
+                 ("link/../link", "/../" + link.split("/")[-1]), ("link/.. as often as the link is deep", "/.." * k),
+                 ("link/name/../..", "/zz/../..")]
+        for cls, tail in tails:
+            for pre in LINK_PREFIXES:
+                out.append((cls + (" (prefix %r)" % pre if pre else ""), pre + link + tail))
+    return out
+
+
+def _marker(rel):
+    import binascii
+    return b"inside:" + binascii.hexlify(os.fsencode(rel))
+
+
+def tree_plan(cyc):
+    """The tree of the alphabet sweeps, as [(relative name, 'dir' | 'file' | link target)] in creation order: plain files
+    and directories and - cyc = (link, target) - symbolic links that stay inside the root (the link sweeps), or - cyc
+    None - the names of the Unicode dimension and no link at all (there, an entry is what its name spells)."""
+    plan = [("d", "dir"), ("d/e", "dir"), ("s", "dir")] + [(rel, "file") for rel in ("a", "d/f", "d/e/g", "s/h", "m")]
+    if cyc:
+        return plan + [(link, "->" + target) for link, target in PLAIN_LINKS + (cyc,)]
+    for rel in UNI_DIRS:
+        plan += [(rel, "dir"), (rel + "/m", "file")]
+    return plan + [(rel, "file") for rel in UNI_FILES]
+
+
+def plant_entry(root, rel, what):
+    q = os.fsencode(os.path.join(root, *rel.split("/")))
+    if what == "dir":
+        os.mkdir(q)
+    elif what == "file":
+        with open(q, "wb") as fh:
+            fh.write(_marker(rel))
+        os.utime(q, ns=(MTIME_NS, MTIME_NS))
+    else:
+        os.symlink(what[2:], q)
+
+
+def plant_tree(root, cyc):
+    """Into `root` (created when missing); the content of every file spells the bytes of its own name."""
+    os.makedirs(root, exist_ok=True)
+    for rel, what in tree_plan(cyc):
+        plant_entry(root, rel, what)
+
+
+def repair_tree(root, cyc, pristine, now):
+    """Bring the tree back to `pristine` by touching only what differs (whole rebuild when that does not do)."""
+    root_b = os.fsencode(root)
+    for k in sorted((k for k in now if now[k] != pristine.get(k)), key=len, reverse=True):
+        if os.path.isdir(k) and not os.path.islink(k):
+            shutil.rmtree(k)
+        elif os.path.lexists(k):
+            os.remove(k)
+    gone = set(k for k in pristine if now.get(k) != pristine[k])
+    for rel, what in tree_plan(cyc):
+        q = os.fsencode(os.path.join(root, *rel.split("/")))
+        if q in gone or not os.path.lexists(q):
+            if os.path.lexists(q):
+                shutil.rmtree(q) if os.path.isdir(q) and not os.path.islink(q) else os.remove(q)
+            plant_entry(root, rel, what)
+    if tree_sig(root) != pristine:
+        empty_dir(root)
+        plant_tree(root, cyc)
+        return False
+    return True
+
+
+def empty_dir(top):
+    top = os.fsencode(top)
+    for n in os.listdir(top):
+        q = os.path.join(top, n)
+        if os.path.isdir(q) and not os.path.islink(q):
+            shutil.rmtree(q)
+        else:
+            os.remove(q)
+
+
+def plant_outside(outer, rootname):
+    """Decoys around the root: the names a folded or physically resolved spelling would land on."""
+    for rel in ("m", "a", "x", "d/f", "d/e/g", "s/h", DECOY, OUT + "-witness", rootname + "-private/secret", u"\u00e9.txt"):
+        q = os.path.join(outer, *rel.split("/"))
+        os.makedirs(os.path.dirname(q), exist_ok=True)
+        with open(q, "wb") as fh:
+            fh.write((OUT + ":" + rel).encode("utf8"))
+
+
+def tree_sig(top, skip=None):
+    """Cheap signature of a tree (no link followed, nothing read): {path bytes: (type, size, mtime, link target)}."""
+    out = {}
+    skip_b = os.fsencode(skip) if skip else None
+    stack = [os.fsencode(top)]
+    while stack:
+        d = stack.pop()
+        try:
+            with os.scandir(d) as it:
+                entries = list(it)
+        except OSError:
+            continue
+        for e in entries:
+            q = e.path
+            if q == skip_b:
+                continue
+            try:
+                if e.is_symlink():
+                    out[q] = ("link", os.readlink(q))
+                elif e.is_dir(follow_symlinks=False):
+                    out[q] = ("dir",)
+                    stack.append(q)
+                else:
+                    st = e.stat(follow_symlinks=False)
+                    out[q] = ("file", st.st_mode & 0o170000, st.st_size, st.st_mtime_ns)
+            except OSError:
+                continue
+    return out
+
+
+def touches_file_system(fn):
+    attr = fn.rsplit(".", 1)[-1]
+    return fn == "scandir" or fn.startswith("shutil.") or attr in path_funcs()
+
+
+def unnormal(log, roots=()):
+    """Logged system paths, handed to a function that touches the file system, that are not lexically normal: the
+    kernel resolves '..' physically (through symbolic links), so only a normal path denotes what its text says.
+    (`os.path.join(root, '')` - the root with one trailing separator - is how OSFS spells its own root.)"""
+    out = []
+    for fn, sp in log:
+        if not touches_file_system(fn) or not sp.startswith(os.sep):
+            continue
+        if sp.endswith(os.sep) and (sp[:-1] in roots or (not roots and os.path.normpath(sp) == sp[:-1])):
+            continue
+        if any(c in ("", ".", "..") for c in sp.split(os.sep)[1:]):
+            phys = "..."
+            if len(out) < 4:
+                try:
+                    phys = os.path.realpath(sp)
+                except Exception:  # noqa
+                    phys = "?"
+            out.append((fn, sp, "the kernel resolves it to %s" % phys))
+    return out
+
+
+def rel_components(path, roots):
+    n = os.path.normpath(path)
+    for r in roots:
+        if n == r:
+            return ()
+        if n.startswith(r + os.sep):
+            return tuple(n[len(r) + 1:].split(os.sep))
+    return None
+
+
+def related(rel, anchors):
+    """rel is one of the anchors, an ancestor or a descendant of one."""
+    return any(rel[:len(a)] == a[:len(rel)] for a in anchors)
+
+
+def unfaithful(log, roots, anchors):
+    """Logged system paths below a root whose components are not - exactly, code point for code point - those of the
+    location the model gives for one of the path arguments, of an ancestor or of a descendant of it."""
+    out = []
+    for fn, sp in log:
+        if not touches_file_system(fn):
+            continue
+        rel = rel_components(sp, roots)
+        if rel is not None and not related(rel, anchors):       # (outside: reported by the containment oracle)
+            out.append((fn, sp))
+    return out
+
+
+def harvest(r, depth=0):
+    """Everything a returned value discloses, as text (iterators are consumed, files read and closed; a returned
+    filesystem is exercised under the caller's oracles)."""
+    from fs.base import FS
+    from fs.info import Info
+    if isinstance(r, FS):
+        consume(r)
+        return ""
+    if r is None or isinstance(r, (str, bytes, int, float)):
+        return repr(r)
+    if isinstance(r, Info):
+        return repr(r.raw)
+    if hasattr(r, "read") and hasattr(r, "close"):
+        data = ""
+        try:
+            data = repr(r.read(4096))
+        except Exception:  # noqa
+            pass
+        finally:
+            r.close()
+        return data + repr(getattr(r, "name", ""))
+    if depth > 4:
+        return repr(r)
+    if isinstance(r, dict):
+        return " ".join(harvest(k, depth + 1) + harvest(v, depth + 1) for k, v in list(r.items()))
+    if inspect.isgenerator(r) or hasattr(r, "__next__") or hasattr(r, "__iter__"):
+        return " ".join(harvest(x, depth + 1) for x in r)
+    return repr(r)
+
+
+class CallTimeout(BaseException):
+    pass
+
+
+class SweepAbandoned(Exception):
+    """Three calls of one sweep did not return within the watchdog's 5 s: the rest of that sweep is skipped."""
+
+
+def _on_alarm(_sig, _frm):
+    raise CallTimeout()
+
+
+def alphabet_kinds(thorough):
+    """(kind, stride of the link sweep, stride of the Unicode sweep, factory(base, cyc) -> (filesystem, its root
+    directory, the directory around it or None, closer), has link trees). A stride n > 1: every method position takes
+    every n-th case, the offset rotating with the method and the seed."""
+    from fs.osfs import OSFS
+    from fs.tempfs import TempFS
+    from fs.zipfs import ZipFS
+    from fs.tarfs import TarFS
+
+    def osfs(base, cyc):
+        outer = os.path.join(base, "outer")
+        root = os.path.join(outer, "root")
+        plant_tree(root, cyc)
+        plant_outside(outer, "root")
+        f = OSFS(root)
+        return f, root, outer, f.close
+
+    def tempfs(base, cyc):
+        outer = os.path.join(base, "outer")
+        os.makedirs(outer)
+        f = TempFS(temp_dir=outer)
+        root = f.getsyspath("/").rstrip(os.sep)
+        plant_tree(root, cyc)
+        plant_outside(outer, os.path.basename(root))
+        return f, root, outer, f.close
+
+    def subfs(base, cyc):
+        outer = os.path.join(base, "outer")
+        root = os.path.join(outer, "root")
+        plant_tree(root, cyc)
+        plant_outside(outer, "root")
+        top = OSFS(outer)
+        return top.opendir("root"), root, outer, top.close
+
+    def staging(cls):
+        def make(base, cyc):
+            # the staging directory of a write archive is a TempFS in the default temporary directory: for the time of
+            # the construction that is a private directory, several levels below the harness' own (a library that
+            # lets a path climb must find decoys there, not the machine's /tmp)
+            stage = os.path.join(base, "outer", "stage")
+            os.makedirs(stage)
+            saved = tempfile.tempdir
+            tempfile.tempdir = stage
+            try:
+                w = cls(os.path.join(base, "out.archive"), write=True)
+            finally:
+                tempfile.tempdir = saved
+            root = w.delegate_fs().getsyspath("/").rstrip(os.sep)
+            if os.path.dirname(root) != stage:
+                w.close()
+                raise RuntimeError("harness: the staging directory of a write archive is not where it was directed")
+            plant_tree(root, None)
+            plant_outside(stage, os.path.basename(root))
+
+            def closer():
+                empty_dir(root)
+                w.close()
+            return w, root, stage, closer
+        return make
+    q = not thorough
+    return [("OSFS", 3 if q else 1, 4 if q else 1, osfs, True), ("TempFS", 6 if q else 1, 12 if q else 1, tempfs, True),
+            ("SubFS^1/OSFS", 6 if q else 1, 12 if q else 1, subfs, True),
+            ("WriteZipFS staging directory", 0, 16 if q else 1, staging(ZipFS), False),
+            ("WriteTarFS staging directory", 0, 16 if q else 1, staging(TarFS), False)]
+
+
+# functions of os / os.path / scandir that only look: a call that logged nothing else cannot have changed a tree
+LOOKING = set("os." + n for n in ("stat", "lstat", "listdir", "scandir", "readlink", "access", "fsencode", "fsdecode", "fspath",
+                                 "statvfs", "getcwd")) | {"scandir"}
+
+
+def only_looked(calls):
+    return all(fn in LOOKING or fn.startswith("os.path.") for fn, _sp in calls)
+
+
+def run_alphabet(rnd, thorough, seed):
+    """Symbolic links inside the root and the Unicode dimension, on every path position of every path-taking method
+    (reflection), for OSFS / TempFS / SubFS over OSFS / the staging directory of write archives. Oracles: every system
+    path is below the root, lexically normal, and faithful to the model's denotation of the arguments; nothing planted
+    outside is disclosed; nothing outside changes; (Unicode sweep, where the tree holds no link) what is read and what
+    changes on disk is - by its BYTES - the entry the argument denotes."""
+    import binascii
+    import re
+    import signal
+    results, bad = [], []
+    methods = public_methods()
+    uni = unicode_paths()
+    cov = dict(kinds=[], unicode_paths=len(uni), unicode_classes=sorted(set(c for c, _p in uni)),
+               link_trees=["%s -> %s" % c for c in CYCLES], plain_links=["%s -> %s" % c for c in PLAIN_LINKS],
+               link_path_classes=len(link_paths("self")) // len(LINK_PREFIXES), link_prefix_spellings=list(LINK_PREFIXES),
+               calls=0, calls_through_links=0, calls_unicode=0, accepted=0, refused_fs_error=0,
+               raised_other=0, system_paths_judged=0, trees_repaired=0, trees_rebuilt=0, timeouts=0, model_denotations=0,
+               content_markers_checked=0, disk_changes_checked=0, cases_thinned_for_walking_methods=0,
+               sweeps_abandoned_after_timeouts=0, sweeps_cut_short_after_60_findings=0)
+    base_top = os.path.realpath(tempfile.mkdtemp(prefix="pyfs2verif_", dir=fast_tmp()))
+    old_handler = signal.signal(signal.SIGALRM, _on_alarm)
+    n_world = [0]
+    marker_re = re.compile(r"inside:([0-9a-f]+)")
+
+    def sweep(kind, stride, factory, cyc, cases, salt):
+        """cyc None: the Unicode sweep - the tree holds no link, so the entries on disk are exactly what the arguments
+        denote (content and on-disk oracles apply)."""
+        literal = cyc is None
+        n_world[0] += 1
+        base = os.path.join(base_top, "k%d" % n_world[0], "pad", "pad")   # (every root: five private levels deep)
+        os.makedirs(base)
+        log = []
+        timeouts = 0
+        bad0 = len(bad)
+        denote = model_denotations([p for _c, p in cases] + ["a"])
+        cov["model_denotations"] += len(denote)
+        with logged_osfs(log):
+            fsx, root, outer, closer = factory(base, cyc)
+            roots = sorted(set([os.path.normpath(root), os.path.realpath(root)]))
+            below = tuple(r + os.sep for r in roots)
+            pristine = tree_sig(root)
+            outside0 = tree_sig(outer, skip=root) if outer else None
+            try:
+                for mi, (m, params, positions) in enumerate(methods):
+                    for which in positions:
+                        mine = cases if stride == 1 else cases[(mi + which + salt) % stride::stride]
+                        heavy = False
+                        for ci, (cls, p) in enumerate(mine):
+                            if heavy and not thorough and ci % 3:
+                                cov["cases_thinned_for_walking_methods"] += 1
+                                continue
+                            last = ci == len(mine) - 1
+                            del log[:]
+                            args = build_args(params, positions, which, p)
+                            blob, verdict = "", "ok"
+                            try:
+                                signal.setitimer(signal.ITIMER_REAL, 5.0)
+                                try:
+                                    blob = harvest(resolve(fsx, m)(*args))
+                                finally:
+                                    signal.setitimer(signal.ITIMER_REAL, 0)
+                                cov["accepted"] += 1
+                            except CallTimeout:
+                                verdict = "timeout"
+                                cov["timeouts"] += 1
+                                timeouts += 1
+                                if timeouts >= 3:
+                                    cov["sweeps_abandoned_after_timeouts"] += 1
+                                    raise SweepAbandoned()
+                            except Exception as e:  # noqa
+                                verdict = type(e).__name__
+                                cov["refused_fs_error" if is_fs_error(e) else "raised_other"] += 1
+                            calls = list(log)
+                            heavy = heavy or len(calls) > 150
+                            cov["calls"] += 1
+                            cov["system_paths_judged"] += len(calls)
+                            ctx = dict(fs=kind, tree_link="%s -> %s" % cyc if cyc else None, method=m, position=which,
+                                       path=p, path_class=cls, verdict=verdict)
+                            anchors = [a for a in (denote.get(p), denote.get("a")) if a is not None]
+                            ctx["denotes"] = ["/" + "/".join(a) for a in anchors[:-1]] or "nothing (the model rejects it)"
+                            esc = [(fn, sp) for fn, sp in calls
+                                   if not ((os.path.normpath(sp) + os.sep).startswith(below))]
+                            if esc:
+                                bad.append(("a call reached a system path outside the root", dict(ctx, outside=esc[:4])))
+                            un = unnormal(calls, roots)
+                            if un:
+                                bad.append(("a system path that is not lexically normal was handed to the operating system "
+                                            "(the kernel resolves '..' physically, through symbolic links)",
+                                            dict(ctx, system_paths=un[:4])))
+                            uf = unfaithful(calls, roots, anchors)
+                            if uf and not esc:
+                                bad.append(("a call touched a location below the root that is not the one its path argument "
+                                            "denotes (components compared with Sandbox.v osfs_syspath)",
+                                            dict(ctx, system_paths=uf[:4])))
+                            if OUT in blob:
+                                i = blob.index(OUT)
+                                bad.append(("a call disclosed a name or content planted outside the root",
+                                            dict(ctx, disclosed=blob[max(0, i - 60): i + 40])))
+                            if literal:
+                                for hx in marker_re.findall(blob):
+                                    cov["content_markers_checked"] += 1
+                                    owner = tuple(os.fsdecode(binascii.unhexlify(hx)).split("/"))
+                                    if not any(owner[:len(a)] == a for a in anchors):
+                                        bad.append(("a call disclosed the content of another entry than the one whose bytes on "
+                                                    "disk spell its path argument", dict(ctx, content_of="/".join(owner))))
+                            results.append((kind, m, which, p, verdict, len(calls)))
+                            if len(bad) - bad0 >= 60:          # (a broken sandbox: more of the same adds nothing)
+                                cov["sweeps_cut_short_after_60_findings"] += 1
+                                raise SweepAbandoned()
+                            if only_looked(calls) and not last and not esc and not un:
+                                continue          # (the signatures are taken at the end of every method position anyway)
+                            if outer:
+                                now = tree_sig(outer, skip=root)
+                                if now != outside0:
+                                    bad.append(("a call changed something outside the root",
+                                                dict(ctx, changed=sorted(os.fsdecode(k) for k in set(now) | set(outside0)
+                                                                         if now.get(k) != outside0.get(k))[:4])))
+                                    for n in os.listdir(outer):
+                                        q = os.path.join(outer, n)
+                                        if q != root:
+                                            shutil.rmtree(q) if os.path.isdir(q) and not os.path.islink(q) else os.remove(q)
+                                    plant_outside(outer, os.path.basename(root))
+                                    outside0 = tree_sig(outer, skip=root)
+                            now = tree_sig(root)
+                            if now != pristine:
+                                if literal:
+                                    for k in set(now) | set(pristine):
+                                        if now.get(k) != pristine.get(k):
+                                            cov["disk_changes_checked"] += 1
+                                            rel = rel_components(os.fsdecode(k), roots)
+                                            if rel is not None and not related(rel, anchors):
+                                                bad.append(("a call created, changed or deleted another entry than the one whose "
+                                                            "bytes on disk spell its path argument",
+                                                            dict(ctx, entry="/".join(rel))))
+                                if repair_tree(root, cyc, pristine, now):
+                                    cov["trees_repaired"] += 1
+                                else:
+                                    cov["trees_rebuilt"] += 1
+                                    pristine = tree_sig(root)
+            except SweepAbandoned:
+                pass
+            finally:
+                try:
+                    closer()
+                except Exception:  # noqa
+                    pass
+        shutil.rmtree(os.path.join(base_top, "k%d" % n_world[0]), ignore_errors=True)
+
+    try:
+        for ki, (kind, lstride, ustride, factory, with_links) in enumerate(alphabet_kinds(thorough)):
+            cov["kinds"].append(kind)
+            if with_links:
+                for ci, cyc in enumerate(CYCLES):
+                    if not thorough and kind != "OSFS" and ci != (seed + ki) % len(CYCLES):
+                        continue
+                    lp = link_paths(cyc[0])
+                    if not thorough:       # every (link, tail) class, one prefix spelling each (rotating)
+                        n = len(LINK_PREFIXES)
+                        lp = [lp[i + (i // n + seed + ci) % n] for i in range(0, len(lp), n)]
+                    before = cov["calls"]
+                    sweep(kind, lstride, factory, cyc, lp, seed + ci)
+                    cov["calls_through_links"] += cov["calls"] - before
+            before = cov["calls"]
+            sweep(kind, ustride, factory, None, uni, seed + ki)
+            cov["calls_unicode"] += cov["calls"] - before
+    finally:
+        signal.setitimer(signal.ITIMER_REAL, 0)
+        signal.signal(signal.SIGALRM, old_handler)
+        shutil.rmtree(base_top, ignore_errors=True)
+    return results, bad, cov
+
+
 def run(report):
     proof = common.preflight(report)
     rnd = random.Random(report.seed + 3)
@@ -1601,11 +2151,14 @@ def run(report):
     r, b = run_osfs(rnd, paths)
     results += [("OSFS",) + x for x in r]
     bad += b
+    # the Unicode dimension of the path alphabet on the backends that are not the operating system's, too
+    uni = [p for _c, p in unicode_paths()]
+    uni = uni if thorough else uni[report.seed % 16::16]
     for depth in ((1, 2, 3) if thorough else (1, 2)):
-        r, b = run_subfs(rnd, paths if thorough else paths[:30], depth)
+        r, b = run_subfs(rnd, (paths if thorough else paths[:30]) + uni, depth)
         results += [("SubFS^%d" % depth,) + x for x in r]
         bad += b
-    r, b = run_mount(rnd, paths)
+    r, b = run_mount(rnd, paths[:40] + uni)
     results += [("MountFS",) + x for x in r]
     bad += b
     ar, b = run_archives()
@@ -1617,6 +2170,9 @@ def run(report):
     bad += b
     cr, b, ctor_cov = run_ctor_state(rnd, thorough, report.seed)
     results += [(x[0], "constructor", x[1], x[2], x[3]) for x in cr]
+    bad += b
+    ar4, b, alphabet_cov = run_alphabet(rnd, thorough, report.seed)
+    results += [(x[0], x[1], x[2], x[3], x[4]) for x in ar4]
     bad += b
     seen = set()
     pending_seen = set()
@@ -1648,11 +2204,12 @@ def run(report):
                archive_queries=[list(x) for x in ar], disagreements_checked=len(bad) + len(model_bad),
                model_comparisons=n_model, traces_validated_against_impl=max(0, len(results) - len(bad)),
                bound_object_methods=[m for m, _p, _q in bound_methods()],
-               returned_objects=returned_cov, constructor_state=ctor_cov)
+               returned_objects=returned_cov, constructor_state=ctor_cov, path_alphabet=alphabet_cov,
+               unicode_paths_on_subfs_and_mountfs=len(uni))
     return report.finish(proof, cov, assumptions=[
         "the tree below the root contains no symbolic link leaving the root (the kernel, not a path string, would follow it)",
-        "system paths are observed at the boundary of fs.osfs (os, io, shutil, scandir module attributes) and fs.tempfs "
-        "(shutil, tempfile); a relative system path is resolved against the working directory of the moment of the call",
+        "system paths are observed at the boundary of fs.osfs (os, io, shutil, scandir module attributes), fs.tempfs "
+        "(shutil, tempfile) and fs.base (os); a relative system path is resolved against the working directory of the moment of the call",
         "the NamedTemporaryFile with which OSFS.__init__ probes case sensitivity in the system temp directory is a fixed "
         "probe independent of every path argument; it is exempted at construction time only",
         "with expand_vars=False the root may denote either the literal directory (documentation) or the one with '~' "
